@@ -348,11 +348,21 @@ GFunc(n, p) ==
 Meth(t, colon, p) ==
     /\ On("meth") /\ More /\ CanOpen
     /\ LET tb == Lookup(stack, t) IN
-       /\ prog' = Append(prog, [infn |-> InFunc, vis |-> VisIds, vispend |-> PendIds, top |-> AtTop, ingf |-> InGFunc, k |-> "meth", t |-> t, tb |-> tb, colon |-> colon, p |-> p, pid |-> nid, altt |-> HideAlt(stack, t)])
+       /\ prog' = Append(prog, [infn |-> InFunc, vis |-> VisIds, vispend |-> PendIds, top |-> AtTop, ingf |-> InGFunc, k |-> "meth", t |-> t, tb |-> tb, colon |-> colon, p |-> p, pid |-> nid, altt |-> HideAlt(stack, t),
+                               mi |-> Len(prog) + 1])    \* the member is named after the position of its definition: mm<mi>
        /\ reads' = Read(tb)
     /\ stack' = Declare(Push(Frame("func")), p, nid)
     /\ nid' = nid + 1
     /\ UNCHANGED <<nfile, gdefs, empty>>
+
+\* print(t.mm<k>) : reads t and the member defined by the method item at position k (possibly on another table)
+MUse(t, k) ==
+    /\ On("muse") /\ More
+    /\ k \in 1..Len(prog) /\ prog[k].k = "meth"
+    /\ LET tb == Lookup(stack, t) IN
+       /\ prog' = Append(prog, [infn |-> InFunc, vis |-> VisIds, vispend |-> PendIds, top |-> AtTop, ingf |-> InGFunc, k |-> "muse", t |-> t, tb |-> tb, mi |-> k, altt |-> HideAlt(stack, t)])
+       /\ reads' = Read(tb)
+    /\ UNCHANGED <<stack, nid, nfile, gdefs, empty>>
 
 \* return u : last statement of its block (at the top level: the value of the module)
 Return(u) ==
@@ -405,6 +415,7 @@ Next ==
     \/ \E n \in Names, u \in UNames : ForNum(n, u) \/ ForIn(n, u)
     \/ \E n \in Names, p \in Names : LFunc(n, p) \/ LEqFunc(n, p) \/ GFunc(n, p)
     \/ \E t \in Names, c \in BOOLEAN, p \in Names : Meth(t, c, p)
+    \/ \E t \in Names, k \in 1..MaxItems : MUse(t, k)
     \/ \E u \in UNames : Return(u)
     \/ \E n \in Names, k \in 1..MaxFiles : Require(n, k)
     \/ End
